@@ -18,8 +18,13 @@ CLAIMED = {
         "technique": "CFG with exception edges + path search for unrestored overrides; flow-sensitive may-alias dataflow with interprocedural write summaries; receiver-origin tracing for clone-before-fit",
         "note": _COMMON_NOTE + " Declined: 'a later successful fit equals a fresh clone' as a numerical statement (decided only through restored state here and C03). Anything not in the alias tables is treated as producing a fresh object, so only positively derived writes are reported.",
     },
+    "C03": {
+        "text": "Static analysis of every fit path: each generator constructor must be seeded by a value that a forward must-analysis proves non-None (or be check_random_state); estimators documented as deterministic under an integer random_state have no unguarded global-stream draw in their fit-reachable set; an interprocedural must-assignment analysis of fitted attributes (helpers inlined, the external parent's fit modelled from its parsed source) shows that no fitted attribute is read before the current fit assigned it, that predict-time caches are reset by fit, and that attributes assigned on some fit paths only are read under the same guard. This covers every history fit(A);fit(B) at once, which tests can only sample.",
+        "technique": "RNG-provenance rule with non-None must-facts; interprocedural must-assigned / read-before-write dataflow on fitted attributes; guard agreement for partially assigned state",
+        "note": _COMMON_NOTE + " Declined: bit-equality of two fits and 'refit equals fresh clone' as numerical statements; staleness of partially assigned attributes that no predict-reachable code reads.",
+    },
 }
 
 NOT_APPLICABLE = {}
 
-FIX_COMMITS = ["6505037", "37050b8", "33dee10", "d99d4dd", "4f7666c", "028434d", "395087d", "d475015", "054609b"]
+FIX_COMMITS = ["6505037", "37050b8", "33dee10", "d99d4dd", "4f7666c", "028434d", "395087d", "d475015", "054609b", "c1a2672", "079fb2a", "e434baf", "260aa11", "297c1aa"]
